@@ -65,6 +65,16 @@ Example C22_partial_nontrivial :
     map la_of ["echo"; "-i"; "a;b"; "-i"; "c|d"; "--verbose"; "--k=7"; "--l"; "1,2"; "-m"; "p"; "-m"; "q"; "-o"; "res/$x*.txt"; "x y"]%string.
 Proof. split; vm_compute; reflexivity. Qed.
 
+(* a numeric 0 / 0.0 is dropped only where Python's `if value:` is consulted (argstr without placeholder, F22d);
+   inside a template it is an ordinary member of the class *)
+Example C22_partial_zero_templated :
+  let fs := [mkS (la_of "level") TInt (SA [[Lit (la_of "--level="); Self]] false) None (la_of " ");
+             mkS (la_of "sc") TFloat (SA [[Lit (la_of "-s")]; [Self]] false) None (la_of " ")] in
+  let vals := [(la_of "level", VAtom (AInt 0)); (la_of "sc", VAtom (AFloat (la_of "0.0") false))] in
+  c22_in_domain Functional echo fs vals = true /\
+  spec_argv echo fs vals [] = map la_of ["echo"; "--level=0"; "-s"; "0.0"]%string.
+Proof. split; vm_compute; reflexivity. Qed.
+
 (* ---- the parts *)
 (* order: define() gives every unpositioned field a position; sorting by those positions is the stated order
    whenever each explicit non-negative position lies below the first implicit one -- whatever the fields contribute *)
@@ -92,7 +102,7 @@ Print Assumptions C22_omission.
 (* list values: '...' repeats the argstr per element; otherwise the elements are joined by the separator into one
    argument (a blank separator gives separate arguments); a MultiInputObj yields one occurrence per element *)
 Theorem C22_list_expansion : forall f ws dots, field_hyps f ws dots -> forall valsM valsS l,
-  lookup valsM (sf_name f) = VList l -> forallb atom_ok l = true ->
+  lookup valsM (sf_name f) = VList l -> forallb atom_benign l = true ->
   (dots = true -> sf_sep f = [" "%char] -> forallb (fun a => inert ws valsS (render_atom a)) l = true ->
      format_arg (to_field f) (render_words (sf_name f) ws ++ (if dots then ellipsis else [])) valsM
      = Good (List.concat (map (fun a => occurrence ws valsS (render_atom a)) l)))
